@@ -16,17 +16,25 @@ PLAN = {}
 
 PLAN["C01"] = dict(
     level="proof",
-    functions=[(CONV, "merge_nodes"), (CONV, "to_stable"), (UTILS, "search_intervals"), (CONV, "to_unstable#filter"), (INDEX, "convert_coord#filter"), (GFA, "GFA.get_path")],
+    functions=[(CONV, "merge_nodes"), (CONV, "to_stable"), (CONV, "to_unstable#bare"), (CONV, "to_unstable#intervals"), (UTILS, "search_intervals"),
+               (CONV, "to_unstable#filter"), (INDEX, "convert_coord#filter"), (GFA, "GFA.get_path")],
     explanation="Base-identity formulation (DESIGN 3.2): a record designates the map path-offset -> (contig, position, orientation). "
                 "merge_nodes and the whole of to_stable (token loop, merge loop with ghost prefix arrays S/U/run_of, collapse branch, "
                 "field-list output, tag loop) are verified for every path length; the postcondition states, over the OUTPUT LINE's own "
                 "fields, that every input node's bases sit at the same path offset in the output segments (split form) or at "
                 "start'+offset / end'-1-offset on the reference contig (bare form), that the total is the sum of the output segments / "
                 "the contig length, and that the CIGAR is reversed iff the strand flips. search_intervals (window, safety, termination) "
-                "and the 3-case overlap filter are verified; the rest of to_unstable is covered by the bounded stand-in only.",
+                "and the 3-case overlap filter are verified. to_unstable is verified whole, once per input shape gaftools itself emits (a bare reference-contig "
+                "name on either strand; alternating orientation / CONTIG:START-END tokens on the + strand): for every token the emitted walk is exactly "
+                "the segments of that contig overlapping the token's interval, ascending for '>' and descending for '<' (ghost lo/hi range, window from "
+                "search_intervals, filter, emission loops); interval form: offsets copied; bare form: total = length of the covering segments and, for a "
+                "symbolic read offset r, the base designated before and after is the same contig position on both strands; output strand '+', CIGAR "
+                "reversed iff the input strand is '-'; columns and tags as in to_stable. get_path delivers the per-contig lists sorted by SO.",
     trusted_base=["meta-argument (not mechanised): equal identity maps => equal spellings (DESIGN 3.2)",
                   "ghost prefix arrays built by X[k+1] = X[k] + d are the prefix sums",
-                  "to_unstable outside the overlap filter and search_intervals: BOUNDED stand-in only (not proved)"],
+                  "to_unstable: input shapes other than the two above (e.g. '-' strand with an interval path) are outside the contract; that an interval token's covering "
+                  "segments tile the interval (needed to read path offsets as base identities in the interval form) is a precondition on the record",
+                  "parse laws of CONTIG:START-END tokens (split(':'), split('-'), ':' in s) as uninterpreted functions"],
     not_applicable_clauses=[],
     mutations=[
         dict(name="merge across orientations", file=CONV, old="if (node1.contig_id != node2.contig_id) or (orient1 != orient2):", new="if (node1.contig_id != node2.contig_id):", expect="merge_nodes", functions=[(CONV, "merge_nodes")]),
@@ -34,6 +42,8 @@ PLAN["C01"] = dict(
         dict(name="bisection mid+1 -> mid", file=UTILS, old="mid + 1, end)", new="mid, end)", expect="search_intervals::decreases", functions=[(UTILS, "search_intervals")]),
         dict(name="equivalent mutant mid-1 -> mid stays green", file=UTILS, old="start, mid - 1)", new="start, mid)", expect="green", functions=[(UTILS, "search_intervals")]),
         dict(name="filter case 2 <= -> <", file=CONV, old="elif s < int(query_end) <= e:", new="elif s < int(query_end) < e:", expect="filter-iff-overlap", functions=[(CONV, "to_unstable#filter")]),
+        dict(name="to_unstable bare '-' offset", file=CONV, old="            new_end = new_total - new_start\n", new="            new_end = new_total - new_start - 1\n", expect="to_unstable#bare", functions=[(CONV, "to_unstable#bare")]),
+        dict(name="to_unstable reverses the wrong orientation", file=CONV, old='        if orient == "<":\n            for i in reversed(nodes_tmp):', new='        if orient == ">":\n            for i in reversed(nodes_tmp):', expect="to_unstable", functions=[(CONV, "to_unstable#bare")]),
         dict(name="collapse offset off by one", file=CONV, old="gaf_line.path_length - gaf_line.path_end\n", new="gaf_line.path_length - gaf_line.path_end - 1\n", expect="to_stable", functions=[(CONV, "to_stable")], quick=False),
         dict(name="harmless: rename-free reorder of independent inits", file=CONV, old="    reverse_flag = False\n    new_total = None\n", new="    new_total = None\n    reverse_flag = False\n", expect="green", functions=[(CONV, "to_stable")], quick=False),
     ],
@@ -272,7 +282,7 @@ PLAN["C19"] = dict(
 
 PLAN["C20"] = dict(
     level="proof",
-    functions=[(PHASE, "add_phase_info#tsv"), (PHASE, "add_phase_info#records")],
+    functions=[(PHASE, "add_phase_info#tsv"), (PHASE, "add_phase_info#records"), (GAFPY, "GAF.parse_gaf_line")],
     explanation="TSV loop: the table holds exactly the reads listed, each with the columns of its FIRST line (ghost first-index). Record loop, for any "
                 "number of records and optional fields, on a line-structured output sink: one output line per input record in order; its first "
                 "twelve fields are the input's columns including the strand; then ps:Z:<chr>-<phase set> and ht:Z:<haplotype> when the read is in "
@@ -310,11 +320,13 @@ PLAN["C11"] = dict(
 )
 PLAN["C13"] = dict(
     level="other",
-    functions=_COLLECT,
+    functions=_COLLECT + [(REALIGN, "wfa_alignment")],
     explanation="PROVED (safety half, same fragment and environment as C11): the collector loops return normally only after every worker's sentinel was "
                 "received, so a worker that died before delivering its sentinel can never lead to a normal return (success is never reported for "
                 "an output that is missing records); the only other way out is sys.exit(1) - exit status non-zero - and it is taken only when "
-                "some worker's exit code is not 0. BOUNDED: every kill point x schedule with the fake mp, and real processes killed at each "
+                "some worker has TERMINATED with a non-zero exit code (observations of is_alive / exitcode are truthful snapshots, workers never "
+                "restart), so a slow but healthy worker can never cause an abort; wfa_alignment delivers its sentinel only on normal completion "
+                "(a crash inside the batch - modelled as the aligner raising - leaves no sentinel). BOUNDED: every kill point x schedule with the fake mp, and real processes killed at each "
                 "point (non-zero exit within a wall-clock limit). NOT APPLICABLE to this technique: that the wait on a live worker is finite "
                 "(liveness under OS scheduling fairness).",
     trusted_base=["multiprocessing environment contract (assumed)", "Process.is_alive / exitcode observations are arbitrary but truthful at the moment of the call (assumed)"],
@@ -327,11 +339,12 @@ PLAN["C13"] = dict(
 
 PLAN["C02"] = dict(
     level="other",
-    functions=[(CONV, "unstable_to_stable"), (CONV, "stable_to_unstable"), (CONV, "to_stable"), (CONV, "merge_nodes")],
+    functions=[(CONV, "unstable_to_stable"), (CONV, "stable_to_unstable"), (CONV, "to_stable"), (CONV, "to_unstable#bare"), (CONV, "to_unstable#intervals"), (CONV, "merge_nodes")],
     explanation="PROVED: both streaming generators yield exactly one converted record per parsed record, in input order (loop invariant for any "
                 "number of records); to_stable copies columns 1-4 and 10-12, keeps every optional field other than cg:Z: with its value and "
                 "position, invents no field (a record without CIGAR gets none), and reverses cg:Z: iff the strand flips (part of the whole-function "
-                "contract of to_stable, C01). BOUNDED (not proved): the same for to_unstable's tail, and the two round trips "
+                "contract of to_stable, C01); to_unstable likewise (columns 1-4, 10-12, tags in order, nothing invented, cg reversed iff the "
+                "input strand is '-'). BOUNDED (not proved): the two round trips "
                 "(canonical unstable -> stable -> unstable, gaftools-canonical stable -> unstable -> stable) byte for byte.",
     trusted_base=["GAF.read_file yields the parsed records in file order (C16)", "to_unstable and the round-trip / composition lemma: BOUNDED stand-in only"],
     not_applicable_clauses=[],
